@@ -173,6 +173,22 @@ pub fn gen_c06(seed: u64, _index: u64) -> KPlan {
                 events.push(KEv::Nak { link, pick: r.below(1000) as u32 });
             }
         }
+        // fast-recovery exit band: enter fast recovery at the floor, then walk the window
+        // through the band just under 12000 with recovery ticks at every RTT velocity
+        if r.chance(0.06) {
+            events.push(KEv::SetWindow { link, window: r.range(1000, 2100) as i32 });
+            events.push(KEv::Send { link, n: 3 });
+            events.push(KEv::Nak { link, pick: 0 });
+            events.push(KEv::SetWindow { link, window: r.range(11_700, 12_010) as i32 });
+            events.push(KEv::Advance { ms: *r.pick(&[600u64, 2_100, 5_100, 7_100, 11_000]) });
+            for _ in 0..r.range(1, 8) {
+                events.push(KEv::Recovery { link, velocity_milli: *r.pick(&[0i64, 1999, 2001, 2001, 50_000]) });
+                events.push(KEv::Advance { ms: *r.pick(&[301u64, 501, 1001]) });
+                if r.chance(0.3) {
+                    events.push(KEv::SetWindow { link, window: r.range(11_850, 11_999) as i32 });
+                }
+            }
+        }
         // stacked recovery ticks
         if r.chance(0.05) {
             for _ in 0..r.range(2, 40) {
